@@ -431,7 +431,7 @@ fn run_scenario(seed: u64) -> Result<ScenarioOut, String> {
             }
         }
         // quiet period, freeze, drain, kill
-        std::thread::sleep(Duration::from_millis(500 + r.below(300) as u64));
+        std::thread::sleep(Duration::from_millis(1200 + r.below(300) as u64));
         let _ = stdin.write_all(b"freeze\n");
         let _ = stdin.flush();
         let t_end = now_ns();
@@ -529,7 +529,7 @@ fn run_scenario(seed: u64) -> Result<ScenarioOut, String> {
             recvd.iter().map(|d| d.sx()).collect::<Vec<_>>().join(" "),
             obs_sx,
             t_end,
-            200_000_000u64
+            600_000_000u64
         );
         let mut m_cases = Vec::new();
         for i in 0..n {
